@@ -587,3 +587,237 @@ pub fn gen_struct(seed: u64, count: usize) -> Vec<String> {
     }
     out
 }
+
+// ---------------------------------------------------------------------------------
+// RAND: short random programs from a grammar biased towards the shapes the optimiser and
+// the bytecode generator special-case (clear loops, scans, balanced and unbalanced
+// loops, I/O next to loops).  This is the family the repository's own fuzz regressions
+// come from; here the *inputs* of each program are then covered by the solver.
+
+fn rand_block(r: &mut Rng, depth: u32, budget: &mut i32, out: &mut String) {
+    let n = 1 + r.below(5);
+    for _ in 0..n {
+        if *budget <= 0 {
+            return;
+        }
+        let c = r.below(100);
+        if c < 16 {
+            let k = 1 + r.below(3) as usize;
+            out.push_str(&rep('+', k));
+            *budget -= k as i32;
+        } else if c < 30 {
+            let k = 1 + r.below(3) as usize;
+            out.push_str(&rep('-', k));
+            *budget -= k as i32;
+        } else if c < 42 {
+            let k = 1 + r.below(2) as usize;
+            out.push_str(&rep('>', k));
+            *budget -= k as i32;
+        } else if c < 54 {
+            let k = 1 + r.below(2) as usize;
+            out.push_str(&rep('<', k));
+            *budget -= k as i32;
+        } else if c < 64 {
+            out.push('.');
+            *budget -= 1;
+        } else if c < 73 {
+            out.push(',');
+            *budget -= 1;
+        } else if c < 79 {
+            out.push_str(*r.pick(&["[-]", "[-]", "[+]", "[--]", "[-]+", "[-]-"]));
+            *budget -= 3;
+        } else if c < 86 {
+            out.push_str(*r.pick(&["[>]", "[<]", "[>>]", "[<<]", "[>]<", "[<]>", "[]"]));
+            *budget -= 3;
+        } else if depth < 3 {
+            out.push('[');
+            *budget -= 2;
+            rand_block(r, depth + 1, budget, out);
+            // most loops get a counter decrement so that they can terminate
+            if r.below(3) != 0 {
+                out.push(*r.pick(&['-', '-', '+']));
+                *budget -= 1;
+            }
+            out.push(']');
+        }
+    }
+}
+
+pub fn gen_rand(seed: u64, count: usize) -> Vec<String> {
+    let mut r = Rng::new(seed ^ 0x7A4D);
+    let mut out: Vec<String> = Vec::new();
+    let mut seen = std::collections::HashSet::new();
+    let mut tries = 0;
+    while out.len() < count && tries < count * 20 {
+        tries += 1;
+        let mut s = String::new();
+        let mut budget = 6 + r.below(18) as i32;
+        // a prefix that gives the optimiser known and unknown cells to work with
+        match r.below(5) {
+            0 => s.push(','),
+            1 => s.push_str("+>"),
+            2 => s.push_str(",>,<"),
+            3 => s.push_str("+>++<"),
+            _ => {}
+        }
+        while budget > 0 {
+            rand_block(&mut r, 0, &mut budget, &mut s);
+        }
+        // observe some cells at the end
+        match r.below(4) {
+            0 => s.push('.'),
+            1 => s.push_str(".<.<."),
+            2 => s.push_str(".>.>."),
+            _ => {}
+        }
+        if balanced(&s) && s.len() <= 40 && seen.insert(s.clone()) {
+            out.push(s);
+        }
+    }
+    out
+}
+
+// ---------------------------------------------------------------------------------
+// PRESSURE: programs that keep values alive across loops, ifs and I/O (temporaries and
+// live ranges in the bytecode generator; register pressure in the JIT).
+
+fn copy_idiom(e: &mut Emit, src: i64, dst: i64, tmp: i64) {
+    e.goto(src);
+    e.out.push_str("[-");
+    e.goto(dst);
+    e.out.push('+');
+    e.goto(tmp);
+    e.out.push('+');
+    e.goto(src);
+    e.out.push(']');
+    e.goto(tmp);
+    e.out.push_str("[-");
+    e.goto(src);
+    e.out.push('+');
+    e.goto(tmp);
+    e.out.push(']');
+}
+
+fn pressure_body(r: &mut Rng, e: &mut Emit, base: i64, n: usize) {
+    for _ in 0..n {
+        let a = r.below(7) as i64;
+        let mut b = r.below(7) as i64;
+        if b == a {
+            b = (a + 1) % 7;
+        }
+        let mut t = r.below(7) as i64;
+        while t == a || t == b {
+            t = (t + 1) % 7;
+        }
+        match r.below(7) {
+            0 | 1 | 2 => copy_idiom(e, a, b, t),
+            3 => {
+                e.goto(a);
+                e.out.push('.');
+            }
+            4 => {
+                e.goto(a);
+                e.out.push_str(",+.");
+            }
+            5 => {
+                e.goto(a);
+                e.out.push_str(*r.pick(&["+", "-", "++", "[-]"]));
+            }
+            _ => {
+                e.goto(a);
+                e.out.push('[');
+                e.goto(b);
+                e.out.push_str(*r.pick(&["+", "++", "-"]));
+                e.goto(a);
+                e.out.push_str("-]");
+            }
+        }
+    }
+    e.goto(base);
+}
+
+pub fn gen_pressure(seed: u64, count: usize) -> Vec<String> {
+    let mut r = Rng::new(seed ^ 0x9E55);
+    let mut out = Vec::new();
+    let mut tries = 0;
+    while out.len() < count && tries < count * 10 {
+        tries += 1;
+        let mut e = Emit { out: String::new(), pos: 0 };
+        // early values (some printed: a temporary is created and stays interesting)
+        let k = 1 + r.below(3) as i64;
+        for c in 0..k {
+            e.goto(c);
+            e.out.push_str(*r.pick(&[",+.", ",", ",.", "+++"]));
+        }
+        // a plain loop that neither shifts nor writes the early cells
+        let l = k + r.below(2) as i64;
+        e.goto(l);
+        e.out.push_str(*r.pick(&[",[.-]", ",[-]", "++[-]", ",[>+<-]"]));
+        // an if (or a loop) whose body holds a loop with copy idioms
+        let c0 = l + 1;
+        e.goto(c0);
+        e.out.push_str(",[");
+        let c1 = c0 + 1;
+        e.goto(c1);
+        e.out.push_str(",[");
+        let n = 2 + r.below(4) as usize;
+        pressure_body(&mut r, &mut e, c1, n);
+        e.out.push_str("-]");
+        e.goto(c0);
+        e.out.push_str(*r.pick(&["[-]]", "[-]]", "-]"]));
+        // observe
+        for c in 0..(1 + r.below(3) as i64) {
+            e.goto(c);
+            e.out.push('.');
+        }
+        if balanced(&e.out) && e.out.len() < 260 && !out.contains(&e.out) {
+            out.push(e.out);
+        }
+    }
+    out
+}
+
+// ---------------------------------------------------------------------------------
+// LIVE: many values kept alive across outputs and inputs (register pressure in the JIT:
+// callee-saved registers 0-3, caller-saved 4-10, stack slots from 11 on).
+
+pub fn gen_live(seed: u64, count: usize) -> Vec<String> {
+    let mut r = Rng::new(seed ^ 0x11FE);
+    let mut out = Vec::new();
+    let mut tries = 0;
+    while out.len() < count && tries < count * 10 {
+        tries += 1;
+        let k = *r.pick(&[3usize, 5, 6, 8, 12, 13, 14]);
+        let mut e = Emit { out: String::new(), pos: 0 };
+        for c in 0..k {
+            e.goto(c as i64);
+            e.out.push_str(*r.pick(&[",", ",", "+++", ",+"]));
+        }
+        // first sweep: modify and observe each cell (creates one temporary per cell)
+        let io = *r.pick(&[".", ".", ",.", ""]);
+        for c in (0..k).rev() {
+            e.goto(c as i64);
+            e.out.push_str(*r.pick(&["-", "+", "--"]));
+            e.out.push_str(io);
+        }
+        // second sweep: use the values again (keeps every temporary alive over the I/O above)
+        for c in 0..k {
+            e.goto(c as i64);
+            e.out.push_str(*r.pick(&["-", "+"]));
+        }
+        if r.below(2) == 0 {
+            // a far move in the middle (runtime call with many live registers)
+            e.out.push_str(&rep('>', 40));
+            e.out.push_str("+.");
+            e.out.push_str(&rep('<', 40));
+        }
+        for c in (0..k).rev() {
+            e.goto(c as i64);
+            e.out.push('.');
+        }
+        if !out.contains(&e.out) {
+            out.push(e.out);
+        }
+    }
+    out
+}
